@@ -344,7 +344,9 @@ func TestC09Connect(t *testing.T) {
 				valid = false
 			}
 		}
-		switch rapid.SampledFrom([]string{"none", "none", "empty", "short", "max", "over"}).Draw(rt, "password") {
+		switch rapid.SampledFrom([]string{"none", "none", "empty", "short", "token", "max", "over"}).Draw(rt, "password") {
+		case "token":
+			cfg.Password = bytes.Repeat([]byte{'t', 0, 0xff, '.'}, rapid.IntRange(64, 300).Draw(rt, "tokenQuads"))
 		case "empty":
 			cfg.Password = []byte{}
 		case "short":
